@@ -27,7 +27,13 @@ The world outside go-zero is a parameter:
     from then on database/sql refuses every statement made with that context with ctx.Err() *before* the driver
     is reached; because the sql.Tx is not bound to the context, nothing is rolled back behind go-zero's back and
     Commit / Rollback still reach the driver;
-  * the breaker's admission decision and the context's state at the call are inputs (`Env`).
+  * the breaker's admission decision and the context's state at the call are inputs (`Env`);
+  * every error value has a class for `commonSqlConn.acceptable` (`Cls`): the body's own error, the error of a
+    QueryRow that finds no row (`SK.rowq`: sqlx.ErrNotFound = sql.ErrNoRows), and — round 4 — the error a failing
+    Commit / Rollback returns (`Faults.commitCls` / `rollbackCls`, `Src.commit c` / `Src.rollback c`); which user
+    functions `WithAcceptable` installed is `UA` (two functions, composed by `withAcceptable`);
+  * `TransactCtx` is `brkDo … (acceptable ua) (transactFn …)`: the breaker's DoWithAcceptableCtx around `transact`
+    (`Props.transactCtx_is_wrapped_transact`); `brkDo` is stated for an arbitrary acceptable function.
 The result records the driver-call log, how often the body ran, how it ended, the returned error (identity
 chain as seen by `errors.Is` + what is only mentioned in the message), whether the call left by a panic of the
 driver instead of returning (`escaped`), and what the breaker was told.
